@@ -6,3 +6,4 @@ EXPLANATION = ("Function contracts on the real tf_pwa line-shape code (breit_wig
 ASSUMPTIONS = []
 
 from vt.contracts import tables_ground  # noqa: F401,E402
+from vt.contracts import lineshape  # noqa: F401,E402
